@@ -3,7 +3,7 @@ from asyncio_taskpool import TaskPool
 from asyncio_taskpool.exceptions import InvalidGroupName, PoolException
 from engine.prog import Interp, site_of
 from engine.spec import Family
-from engine.world import Excluded, World
+from engine.world import Excluded, HarnessError, World
 from engine.prog import parts_product
 
 ID = "C07"
@@ -75,15 +75,21 @@ def tpl_group(size, kb, conc, who, s, o1, a1, o3, a3, settle0, t, order, re=0, _
 
             def do():
                 done["did"] = True
-                if who == 0:
-                    w.op("cgroupB")
-                    e = w.do_cancel_group(pool, "B")
-                    if e is not None:
-                        done["err"] = e
+                try:
+                    if who == 0:
+                        w.op("cgroupB")
+                        e = w.do_cancel_group(pool, "B")
+                        if e is not None:
+                            done["err"] = e
+                        else:
+                            it._mark_cancelled(rb)
                     else:
-                        it._mark_cancelled(rb)
-                else:
-                    it.cancel_all()
+                        it.cancel_all()
+                except (Excluded, HarnessError):
+                    raise
+                except Exception as e:  # noqa: BLE001 - anything but a pool error leaving the call is clause 710
+                    done["err"] = e
+                    it._mark_cancelled(rb)
                 rb["unfinished"] = [x["wid"] for x in it.workers_of(rb) if x["state"] == "run"]
                 ra["unfinished"] = [x["wid"] for x in it.workers_of(ra) if x["state"] == "run"]
             site = site_of(s)
@@ -255,7 +261,8 @@ def families(tier):
     if not thorough:
         pre += ["kb <= 1 or kb == 3", "kb == 0 or conc == 2", "1 <= size <= 3", "s == 0 or o3 >= 1", "s == 0 or settle0 == 1", "o1 <= 1 or o1 == 3",
                 "settle0 == 0 or order == 0", "a1 <= 2", "a3 <= 2", "s == 0 or who == 0", "o1 != 3 or s == 0"]
-        parts = [["kb == 3", "who == %d" % who_, "settle0 == 1", "s == 0", "o1 <= 1"] for who_ in (0, 1)]
+        parts = [["kb == 3", "who == %d" % who_, "settle0 == 1", "s == 0", "o1 == %d" % o_, "re == %d" % r_]
+                 for who_ in (0, 1) for o_ in (0, 1) for r_ in (0, 1) if not (r_ and who_)]
         for kb in (0, 1):
             for who in (0, 1):
                 for order in (0, 1):
